@@ -555,6 +555,22 @@ func partB(c *gal.Ctx) {
 		{"TestsTXTTBoot", test.TestsTXTTBoot}, {"TestsBootGuard", test.TestsBootGuard[:]},
 		{"txt-suite getTests()", append(append(append(append(append([]*test.Test{}, test.TestsCPU[:]...), test.TestsTPM[:]...), test.TestsFIT[:]...), test.TestsMemory[:]...), test.TestsACPI[:]...)},
 	}
+	// the suites that contain a check that panics on the healthy platform are also
+	// run without it, so that the rest of the suite is exercised as a whole
+	for _, s := range suites[:len(suites):len(suites)] {
+		var rest []*test.Test
+		for _, t := range s.list {
+			if !strings.HasPrefix(healthy[t.Name], "PANIC") {
+				rest = append(rest, t)
+			}
+		}
+		if len(rest) != len(s.list) {
+			suites = append(suites, struct {
+				name string
+				list []*test.Test
+			}{s.name + " without the checks that panic on the healthy platform", rest})
+		}
+	}
 	rerunReal := []string{}
 	for _, s := range suites {
 		for _, silent := range []bool{false, true} {
